@@ -53,16 +53,17 @@ class BinShift(Unit):
     def patches(self):
         return standard_patches(concretize_int=True)
 
-    def __init__(self, kind, N, sshape, shift_shape, c64=False, t0=True, align="center"):
+    def __init__(self, kind, N, sshape, shift_shape, c64=False, t0=True, align="center", units=("Hz", "Hz")):
         self.kind, self.N, self.sshape, self.shift_shape = kind, N, tuple(sshape), tuple(shift_shape)
+        self.units = units                     # units in which (sample_rate, shift) are given
         self.c64, self.t0, self.align = c64, t0, align
         k = int(np.prod(shift_shape)) if shift_shape else 1
         self.mmax = N + 2 if k == 1 else (N + 1 if k == 2 else 1)
         self.dual = len(sshape) == 2 and sshape[1] == 2
         self.name = f"{kind}-N{N}-s{'x'.join(map(str, sshape))}-sh{'x'.join(map(str, shift_shape)) or 'scalar'}" \
-                    f"{'-c64' if c64 else ''}{'' if t0 else '-not0'}-{align}"
+                    f"{'-c64' if c64 else ''}{'' if t0 else '-not0'}-{align}{'' if units == ('Hz', 'Hz') else '-' + units[0] + '-' + units[1]}"
         self.bounds = {"N": N, "sample_shape": list(sshape), "shift_shape": list(shift_shape), "complex64": c64,
-                       "start_time": t0, "freq_align": align,
+                       "start_time": t0, "freq_align": align, "units(sample_rate,shift)": list(units),
                        ("|m|<=" if kind == "bin" else "|phi*N|<"): self.mmax + (0 if kind == "bin" else 1)}
 
     def build(self, S):
@@ -77,7 +78,10 @@ class BinShift(Unit):
             S.assume(t0v > -10**6)
             S.assume(t0v < 10**6)
             t0 = S.time(t0v)
-        kw = dict(sample_rate=SR_HZ * u.Hz, start_time=t0, center_freq=S.quantity(cf, u.Hz), freq_align=self.align)
+        FU = {"Hz": (u.Hz, 1), "kHz": (u.kHz, 1000), "MHz": (u.MHz, 10**6)}
+        sru, srs = FU[self.units[0]]
+        shu, shs = FU[self.units[1]]
+        kw = dict(sample_rate=(SR_HZ / srs) * sru, start_time=t0, center_freq=S.quantity(cf, u.Hz), freq_align=self.align)
         if self.dual:
             sig = pb.DualPolarizationSignal(z, pol_type="linear", **kw)
         else:
@@ -103,11 +107,11 @@ class BinShift(Unit):
                 marr[ix] = mk("m_" + "_".join(map(str, ix)))
             pad = marr.reshape(self.shift_shape + (1,) * (len(self.sshape) - len(self.shift_shape)))
             full = np.broadcast_to(pad, self.sshape)
-        binw = Fraction(SR_HZ, N)            # one bin in Hz
+        binw = Fraction(SR_HZ, N) / shs      # one bin in the shift's unit
         if S.symbolic:
-            shift = S.quantity(m * binw, u.Hz) if marr is None else S.quantity(SymND(marr) * binw, u.Hz)
+            shift = S.quantity(m * binw, shu) if marr is None else S.quantity(SymND(marr) * binw, shu)
         else:
-            shift = S.zero_sign(float(m) * float(binw)) * u.Hz if marr is None else S.zero_sign(np.asarray(marr, dtype=float) * float(binw)) * u.Hz
+            shift = S.zero_sign(float(m) * float(binw)) * shu if marr is None else S.zero_sign(np.asarray(marr, dtype=float) * float(binw)) * shu
         return {"sig": sig, "z": z, "shift": shift, "full": full}
 
     def call(self, a):
@@ -183,6 +187,10 @@ def units(tier):
                 if N == 3 and k > 2 and tier == "quick":
                     continue
                 us.append(BinShift("bin", N, ss, sh, c64=(N == 2 and sh == ()), t0=(N != 3), align=next(aligns)))
+                if N in (2, 3) and sh in ((), (2,)) and len(ss) == 1 and (N, sh) != (3, (2,)):
+                    # sample rate / shift given in other frequency units: shift/sample_rate must be reduced to a pure number
+                    un = {(2, ()): ("kHz", "Hz"), (2, (2,)): ("MHz", "kHz"), (3, ()): ("Hz", "MHz")}[(N, sh)]
+                    us.append(BinShift("bin", N, ss, sh, t0=True, align=next(aligns), units=un))
     for N in ((2, 4) if tier == "quick" else (1, 2, 4)):
         for ss, sh in (((1,), ()), ((2,), ()), ((2,), (2,)), ((2,), (1,)), ((2, 2), (2, 1)), ((2, 2), (2,)), ((2, 2), ())):
             if tier == "quick" and N == 4 and len(ss) == 2 and sh != ():
